@@ -2,7 +2,7 @@
    Algorithm model: C12_Model.v part 1 (transcription of Flag_complex_edge_collapser.h); specification model: part 2
    (barcode of the flag filtration through ReduceExec.certified_lows).  Proofs: C12_Proofs.v. *)
 From Coq Require Import ZArith List Bool Sorting.Sorted.
-Require Import Reduce ReduceExec C12_Model C12_Proofs C12_Tables C12_Conn.
+Require Import Reduce ReduceExec C12_Model C12_Proofs C12_Tables C12_Conn C12_Dom.
 Import ListNotations.
 Local Open Scope Z_scope.
 
@@ -166,6 +166,36 @@ Proof.
   - exists (Fin 1). split; [left; cbn; tauto|reflexivity].
   - exists (Fin 2). split; [left; cbn; tauto|reflexivity].
 Qed.
+
+(* The hypothesis of the edge-collapse theorem holds at every step, proved: the returned list is obtained from the input
+   by handling the edges in order, and an edge (u,v,t) is moved to a time T >= t (dropped when T = +inf) only if at EVERY
+   time tau in [t,T) it is dominated in the current graph L = "edges already returned ++ edges still to handle", i.e.
+   there is a common neighbour c of u and v at time tau such that every common neighbour of u and v at time tau is c or a
+   neighbour of c at time tau (dominatedL L u v c tau; N_tau(uv) subset N_tau[c]).  This is exactly the situation in which
+   Boissonnat-Pritam / Glisse-Pritam prove that the persistence module does not change; what remains unproved is that
+   theorem itself.  ([justified done todo out] is the inductive predicate of C12_Dom.v saying just that.) *)
+Theorem C12_every_move_is_a_dominated_edge_partial : forall (dense : bool) (es : list edge) (out : list oedge),
+  NoDup (map ekey es) -> (forall u v t, In (u, v, t) es -> 0 <= u /\ 0 <= v /\ u <> v) ->
+  process_edges dense es = Some out -> justified [] es out.
+Proof. exact collapse_justified_any. Qed.
+Print Assumptions C12_every_move_is_a_dominated_edge_partial.
+
+Theorem C12_entry_point_every_move_is_a_dominated_edge_partial : forall (dense : bool) (es : list edge) (out : list oedge),
+  NoDup (map ekey es) -> (forall u v t, In (u, v, t) es -> 0 <= u /\ 0 <= v /\ u <> v) ->
+  flag_complex_collapse_edges dense es = Some out -> justified [] (sort_desc es) out.
+Proof. exact collapse_justified_entry_point. Qed.
+Print Assumptions C12_entry_point_every_move_is_a_dominated_edge_partial.
+
+(* the per-step form on the neighbour table (coherent state s): the edge is dominated in the table's graph throughout *)
+Theorem C12_step_dominated_throughout : forall (V : list Z) (s : state) (u v t : Z) (s' : state) (o : list oedge),
+  Coh s -> tbl_ok V s -> in_range s u -> in_range s v ->
+  process_edge false s (u, v, t) = Some (s', o) ->
+  exists T,
+    fv_le (Fin t) T = true /\
+    o = (match T with PInf => [] | _ => [(u, v, T)] end) /\
+    forall tau, fv_le (Fin t) tau = true -> fv_lt tau T = true -> exists c, dominated_by s u v c tau.
+Proof. exact process_edge_dominated. Qed.
+Print Assumptions C12_step_dominated_throughout.
 
 (* The decisive clause of the property.  NOT proved here: it is the theorem of Boissonnat-Pritam (SoCG 2020) and
    Glisse-Pritam (SoCG 2022) that removing / delaying dominated edges preserves the persistence module of the flag
